@@ -95,3 +95,58 @@ Definition C01_envelope_statement := envelope_inverse.
    finer" — likewise swept. *)
 Definition C01_refinement_statement := refinement_inverse.
 Definition C01_dr_statement := dr_scale_inverse.
+
+(* ---- exact on its own span (builder "basis"; proofs/ExactOnSpan.v on top of the
+   C09 entry theorems) ------------------------------------------------------
+   This part of "recovers the true source" is true exactly and for all inputs:
+   if the data row is the exact Abel projection (the `Abel` above; model.Abel.Abel
+   is the same term) of a function of the span of the method's own basis —
+   span_daun<d> c n r = sum_{j<n} c_j * basis_j(r), basis_j = rect / tri / quad2
+   centred at pixel j (piecewise constant / linear / quadratic) — and X is a left
+   inverse of the generated matrix of abel/daun.py (daun_p<d> j i, regenerated from
+   the source on every run: gen/FormulasBasis.v), then applying X to the data
+   returns the coefficients c exactly, for every size n and every c.
+   sumn n F = F 0 + ... + F (n-1);  zc j = IZR (Z.of_nat j);  delta = Kronecker.
+   (The existence of X — triangular matrix with non-zero diagonal — and the float
+   solve are C03's business; the hypothesis is shown satisfiable below.) *)
+From Coq Require Import ZArith.
+From PA Require Import gen.FormulasBasis proofs.ExactOnSpan.
+
+Theorem C01_exact_on_span_daun0 : forall (n : nat) (c : nat -> R) (X : nat -> nat -> R),
+  (forall j k, (j < n)%nat -> (k < n)%nat ->
+     sumn n (fun i => daun_p0 (Z.of_nat j) (Z.of_nat i) * X i k) = delta j k) ->
+  forall k, (k < n)%nat ->
+    sumn n (fun i => Abel (span_daun0 c n) (zc n) (zc i) * X i k) = c k.
+Proof. exact exact_on_span_daun0. Qed.
+Print Assumptions C01_exact_on_span_daun0.
+
+Theorem C01_exact_on_span_daun1 : forall (n : nat) (c : nat -> R) (X : nat -> nat -> R),
+  (forall j k, (j < n)%nat -> (k < n)%nat ->
+     sumn n (fun i => daun_p1 (Z.of_nat j) (Z.of_nat i) * X i k) = delta j k) ->
+  forall k, (k < n)%nat ->
+    sumn n (fun i => Abel (span_daun1 c n) (zc n) (zc i) * X i k) = c k.
+Proof. exact exact_on_span_daun1. Qed.
+Print Assumptions C01_exact_on_span_daun1.
+
+Theorem C01_exact_on_span_daun2 : forall (n : nat) (c : nat -> R) (X : nat -> nat -> R),
+  (forall j k, (j < n)%nat -> (k < n)%nat ->
+     sumn n (fun i => daun_p2 (Z.of_nat j) (Z.of_nat i) * X i k) = delta j k) ->
+  forall k, (k < n)%nat ->
+    sumn n (fun i => Abel (span_daun2 c n) (zc n) (zc i) * X i k) = c k.
+Proof. exact exact_on_span_daun2. Qed.
+Print Assumptions C01_exact_on_span_daun2.
+
+(* Dasch onion peeling: D = inv(W) (abel/dasch.py), result_k = sum_i D[k][i] data_i,
+   W = generated onion_W = transposed degree-0 matrix (C09_onion_W_eq_daun0). *)
+Theorem C01_exact_on_span_onion_peeling : forall (n : nat) (c : nat -> R) (D : nat -> nat -> R),
+  (forall k j, (k < n)%nat -> (j < n)%nat ->
+     sumn n (fun i => D k i * onion_W (Z.of_nat n) (Z.of_nat i) (Z.of_nat j)) = delta j k) ->
+  forall k, (k < n)%nat ->
+    sumn n (fun i => D k i * Abel (span_daun0 c n) (zc n) (zc i)) = c k.
+Proof. exact exact_on_span_onion_peeling. Qed.
+Print Assumptions C01_exact_on_span_onion_peeling.
+
+Example C01_exact_on_span_hypothesis_satisfiable :
+  exists X : nat -> nat -> R, forall j k, (j < 1)%nat -> (k < 1)%nat ->
+    sumn 1 (fun i => daun_p0 (Z.of_nat j) (Z.of_nat i) * X i k) = delta j k.
+Proof. exact left_inverse_exists_n1. Qed.
